@@ -105,7 +105,7 @@ def decoy_imports(text: str, added: list[str]) -> str:
     return text.rstrip("\n") + "\n\n\ndef decoy_scope():\n" + body + "\n    return None\n"
 
 
-ARGS = ["asis", "kwspread-last", "kwspread-mid", "extra-kw", "dict-spread", "same-line-pair", "multiline", "list-elements"]
+ARGS = ["asis", "kwspread-last", "kwspread-mid", "extra-kw", "dict-spread", "same-line-pair", "multiline", "list-elements", "fstring-field"]
 
 
 def changed_lines(before: str, after: str) -> set[int]:
@@ -226,6 +226,43 @@ def list_elements(text: str, lines: set[int]) -> str | None:
     return out if applied[0] else None
 
 
+def fstring_field(text: str, lines: set[int]) -> str | None:
+    """`x = <call>` / `<call>` on one of `lines` becomes `x = f"{<call>}"` / `f"{<call>}"`: the site is the replacement
+    field of an f-string, where a rewrite that starts with a brace, or brings the quote of the string, changes the string."""
+    import libcst as cst
+    from libcst.metadata import MetadataWrapper, PositionProvider
+
+    try:
+        wrapper = MetadataWrapper(cst.parse_module(text))
+    except Exception:  # noqa: BLE001
+        return None
+    applied = [0]
+
+    class T(cst.CSTTransformer):
+        METADATA_DEPENDENCIES = (PositionProvider,)
+
+        def leave_SimpleStatementLine(self, original_node, updated_node):
+            pos = self.get_metadata(PositionProvider, original_node)
+            if pos.start.line != pos.end.line or pos.start.line not in lines or len(updated_node.body) != 1:
+                return updated_node
+            st = updated_node.body[0]
+            if isinstance(st, (cst.Expr, cst.Assign)) and isinstance(st.value, cst.Call):
+                code = cst.Module([]).code_for_node(st.value)
+                if any(c in code for c in "\\\n#{}") or ('"' in code and "'" in code):
+                    return updated_node
+                q = "'" if '"' in code else '"'
+                fs = cst.FormattedString(parts=[cst.FormattedStringExpression(expression=st.value)], start="f" + q, end=q)
+                applied[0] += 1
+                return updated_node.with_changes(body=[st.with_changes(value=fs)])
+            return updated_node
+
+    try:
+        out = wrapper.visit(T()).code
+    except Exception:  # noqa: BLE001
+        return None
+    return out if applied[0] else None
+
+
 def same_line_pair(text: str, lines: set[int]) -> str | None:
     """`x = <call>` / `<call>` on one of `lines` becomes `x = (<call>, <call>)` / `(<call>, <call>)`: two sites of the
     same rule that start and end on the same line."""
@@ -336,6 +373,8 @@ def apply(text: str, vec: dict, added_imports: list[str] | None = None, expected
             t = multiline_parens(t, lines)
         elif vec["args"] == "list-elements":
             t = list_elements(t, lines)
+        elif vec["args"] == "fstring-field":
+            t = fstring_field(t, lines)
         else:
             t = extend_args(t, vec["args"], lines)
         if t is None:
